@@ -146,8 +146,12 @@ class TreeInfo(productmd.common.MetadataBase):
         # a failure must not truncate the destination file
         parser = self._get_parser()
         self.serialize(parser, main_variant=main_variant)
+        # build the content in memory as well: a value that cannot be written
+        # out must not leave a partially written file behind
+        content = six.StringIO()
+        self.build_file(parser, content)
         with productmd.common.open_file_obj(f, "w") as f:
-            self.build_file(parser, f)
+            f.write(content.getvalue())
 
 
 class Header(productmd.common.Header):
